@@ -519,7 +519,20 @@ func ruleR25_4(c *Check) {
 		if !ok || b.Tok != token.BREAK {
 			return true
 		}
-		for _, g := range w.Guards(tl, b) {
+		var gsAll []Guard
+		for _, g0 := range w.Guards(tl, b) {
+			// a break under `A || B` is a stop for A and a stop for B
+			if g0.Val && !g0.Implicit {
+				if parts := flatten(g0.Cond, token.LOR); len(parts) > 1 {
+					for _, p := range parts {
+						gsAll = append(gsAll, Guard{Cond: unparen(p), Val: true, At: g0.At, Fn: g0.Fn})
+					}
+					continue
+				}
+			}
+			gsAll = append(gsAll, g0)
+		}
+		for _, g := range gsAll {
 			if g.Implicit {
 				continue
 			}
